@@ -351,6 +351,25 @@ def cli_edges():
             bad.append(("cli-edge:shots-zero:died", "CLI died with a shot count of %d: %s %s" % (cnt, a.crash, b.crash), src))
         elif (a.rec["rc"] == 0) != (b.rec["rc"] == 0):
             bad.append(("cli-edge:shots-zero:flag-and-annotation-disagree", "--shots=%d exits %d but @shots(%d) exits %d: stdout %r" % (cnt, a.rec["rc"], cnt, b.rec["rc"], b.rec["stdout"][:200]), src))
+    # (second hunt, C09/d2) the order of the tables of variables that were NOT renamed does not change when another one is renamed
+    def table_order(names):
+        body = " ".join("@tracked qubit %s; measure %s;" % (nm, nm) for nm in names)
+        r = _cli_raw("function main() -> void { qubit pad; %s echo(\"e\"); }" % body, ["--shots=1"])
+        if r.crash or r.rec is None or r.rec["rc"] != 0:
+            return None
+        return [ln.split(" ", 1)[1] for ln in r.rec["stdout"].split("\n") if ln.startswith("qubit ")]
+    base_names = ["a", "b", "c", "e"]
+    o0 = table_order(base_names)
+    n += 1
+    for new in ("l", "zz", "A0", "d", "q9", "first"):
+        o1 = table_order(base_names[:3] + [new])
+        n += 1
+        if o0 is None or o1 is None:
+            bad.append(("cli-edge:table-order:died", "the CLI failed on four tracked qubits", "names %s / %s" % (base_names, new)))
+            break
+        if [x for x in o0 if x != "e"] != [x for x in o1 if x != new]:
+            bad.append(("cli-edge:table-order:renaming-reshuffles-other-tables", "tables print as %s; with 'e' renamed to %r they print as %s: the tables of a, b, c changed places" % (o0, new, o1), "four tracked qubits a, b, c, e"))
+            break
     for val in ("foo", "ALL", "", "al"):
         r = _cli_raw(src, ["--echo=%s" % val])
         n += 1
